@@ -156,3 +156,51 @@ fix_blockmove_good (mpf_ptr u, mpf_ptr v)
   PREC (u) = PREC (v);
   PREC (v) = p;
 }
+
+/* R-BUFGROW positive: the loop grows before each append, but the terminator after the loop has no room check */
+char *
+fix_bufgrow_bad (FILE *fp, size_t *lenp)
+{
+  size_t alloc_size = 16, str_size = 0;
+  char *str = (char *) (*__gmp_allocate_func) (alloc_size);
+  int c = getc (fp);
+  while (c != EOF && c != ' ')
+    {
+      if (str_size >= alloc_size)
+        {
+          size_t old = alloc_size;
+          alloc_size = alloc_size * 3 / 2;
+          str = (char *) (*__gmp_reallocate_func) (str, old, alloc_size);
+        }
+      str[str_size++] = c;
+      c = getc (fp);
+    }
+  str[str_size] = 0;
+  *lenp = alloc_size;
+  return str;
+}
+
+/* negative twin: the check runs before the loop test, so the exit path has room for the terminator */
+char *
+fix_bufgrow_good (FILE *fp, size_t *lenp)
+{
+  size_t alloc_size = 16, str_size = 0;
+  char *str = (char *) (*__gmp_allocate_func) (alloc_size);
+  int c = getc (fp);
+  for (;;)
+    {
+      if (str_size >= alloc_size)
+        {
+          size_t old = alloc_size;
+          alloc_size = alloc_size * 3 / 2;
+          str = (char *) (*__gmp_reallocate_func) (str, old, alloc_size);
+        }
+      if (c == EOF || c == ' ')
+        break;
+      str[str_size++] = c;
+      c = getc (fp);
+    }
+  str[str_size] = 0;
+  *lenp = alloc_size;
+  return str;
+}
